@@ -28,6 +28,7 @@ type Case struct {
 	QuietAdvance bool
 	Settle       int // extra ticks (with scheduling freedom, no new requests) before the final drain
 	CrashBetween int // crash between steps with probability 1/CrashBetween
+	Prime        int // up to Prime promises are created (deterministically, no faults) before the timeline starts
 	Setup        func(s *Sim)
 	PerStep      func(s *Sim, step int)
 }
@@ -109,6 +110,18 @@ func RunCase(d D, c *Case, dir string) *Sim {
 			}
 			return out
 		}
+	}
+	if c.Prime > 0 && c.Gen != nil {
+		n := d.Int(0, c.Prime, "prime")
+		saved := s.D
+		s.D = D{}
+		for i := 0; i < n; i++ {
+			s.Submit(&t_api.Request{Kind: t_api.CreatePromise, CreatePromise: c.Gen.CreateReq(s.Now, c.Gen.pick(c.Gen.Pids, "primepid"))})
+		}
+		for i := 0; i < 6 && s.InFlight() > 0; i++ {
+			s.Tick()
+		}
+		s.D = saved
 	}
 	if c.Setup != nil {
 		c.Setup(s)
@@ -193,13 +206,12 @@ func RunCampaign(t *testing.T, c Campaign) {
 			stats.Nontriv(sig, sampleOf(s))
 		}
 		for _, v := range vs {
+			if !fatal[v.Prop] {
+				continue // judged by that property's own check
+			}
 			if v.Key != "" && known[v.Key] {
 				stats.KnownFinding(v.Key)
 				PrintKnown(v.Prop, v.Key, v.Msg)
-				continue
-			}
-			if !fatal[v.Prop] {
-				stats.Class("other-property-violation:" + v.Prop + "-" + v.Code)
 				continue
 			}
 			dump := s.TraceDump()
@@ -230,7 +242,7 @@ func sampleOf(s *Sim) any {
 			line += " -> lost in crash"
 		}
 		reqs = append(reqs, line)
-		if len(reqs) >= 25 {
+		if len(reqs) >= 14 {
 			reqs = append(reqs, "...")
 			break
 		}
